@@ -206,6 +206,10 @@ pub fn gen_rw_run(check: &str, seed: u64, tier: Tier) -> Run {
         (Tier::Thorough, _) => &[200, 600, 2000],
     };
     run.set("node_budget", *w.pick(budgets));
+    if run.get("wide_la") != 0 {
+        // 13-parameter classes make every rewriting step expensive: small e-graphs only
+        run.set("node_budget", run.get("node_budget").min(150));
+    }
     run.set("modify", w.chance(1, 2) as i64);
     let mut f = Rng::stream(seed, "faults");
     if f.chance(1, 2) {
